@@ -96,6 +96,8 @@ def tasks_for(tier):
         (dict(wrapper='tree', levy='none', size=(1,), tol=0.1, t1=Fraction(1, 2)), 'dyadic', 1, mp, to),
         (dict(levy='space-time', size=(2,), tol=0.1, halfway=True, cache_size=1, t1=Fraction(1, 2)), 'dyadic', 1, mp, to),
         (dict(wrapper='tree', levy='none', size=(1,), tol=0.1, t1=Fraction(1, 2), w0=1.5), 'dyadic-point', 1, mp, to),
+        # a tolerance above 1 that is not a power of ten: the rounding grid (1) is finer than the tolerance (seeded change C06d)
+        (dict(levy='none', size=(), tol=2.5, halfway=True, t1=8), 'dyadic', 1, mp, to),
     ]
     if not q:
         T += [
